@@ -663,7 +663,13 @@ func writeString(sb *strings.Builder, s string, escape bool) {
 		return
 	}
 	sb.WriteByte('"')
-	for _, r := range s {
+	short := map[rune]string{'/': `\/`, '"': `\"`, '\\': `\\`, '\b': `\b`, '\f': `\f`, '\n': `\n`, '\r': `\r`, '\t': `\t`}
+	for i, r := range s {
+		if se, ok := short[r]; ok && (i+len(s))%2 == 0 {
+			// the two-character escapes of JSON, among them the solidus that only JSON knows
+			sb.WriteString(se)
+			continue
+		}
 		if r < 0x10000 {
 			fmt.Fprintf(sb, `\u%04x`, r)
 		} else {
@@ -762,7 +768,7 @@ func genEdit(t *rapid.T) Edit {
 
 func init() {
 	vh.Describe(
-		"Bases: every example document, enveloped, calculated and valid (quick: a spread of 1 in 7 plus all non-invoice documents for the exhaustive sweep; thorough: all). Exhaustive single edits of the serialised doc: every leaf altered to another value of its type (amounts: digit and precision; percentages; dates; date-times: second, zone designator, fraction; country codes: other codes including the alternative codes of one regime; strings; booleans) - an alteration that is read back as the same content is a blind spot -, every member and element removed, every member that other examples carry at the same position, or that the published schema declares there (a small instance built from the schema: lists with one element, maps with one entry, objects with their required members), added, arrays swapped / shortened / duplicated; plus rapid sampling of edits over all bases, and random content-preserving re-encodings (member order, whitespace, \\u escapes; for a third the header notes hold characters outside the basic plane, escaped as surrogate pairs), which must validate in the library and through cli.Validate, the entry point of the command line, bulk and HTTP. Oracle: J(x) = JSON of marshal(parse(x).doc); J equal => validates with the same digest; J different => Digest() differs from head.dig, Validate() fails (with the digest key when everything else validates), and after Calculate() the digest equals the original iff J does. Non-trivial: the edit changes J (it is not normalised away by the parser).",
+		"Bases: every example document, enveloped, calculated and valid (quick: a spread of 1 in 7 plus all non-invoice documents for the exhaustive sweep; thorough: all). Exhaustive single edits of the serialised doc: every leaf altered to another value of its type (amounts: digit and precision; percentages; dates; date-times: second, zone designator, fraction; country codes: other codes including the alternative codes of one regime; strings; booleans) - an alteration that is read back as the same content is a blind spot -, every member and element removed, every member that other examples carry at the same position, or that the published schema declares there (a small instance built from the schema: lists with one element, maps with one entry, objects with their required members), added, arrays swapped / shortened / duplicated; plus rapid sampling of edits over all bases, and random content-preserving re-encodings (member order, whitespace, \\u escapes and the two-character escapes of JSON, the solidus among them; for a third the header notes hold characters outside the basic plane, escaped as surrogate pairs), which must validate in the library and through cli.Validate, the entry point of the command line, bulk and HTTP. Oracle: J(x) = JSON of marshal(parse(x).doc); J equal => validates with the same digest; J different => Digest() differs from head.dig, Validate() fails (with the digest key when everything else validates), and after Calculate() the digest equals the original iff J does. Non-trivial: the edit changes J (it is not normalised away by the parser).",
 		"members the parser does not know are not part of the logical content (they vanish on parse); additions therefore use members other examples carry at the same position or the published schemas declare there",
 	)
 	vh.Enum("edits", enumEdits, judgeEdit)
